@@ -179,7 +179,7 @@ pub fn family(cfg: &Cfg) -> Vec<Item> {
     let mut push = |e: &OpeningHoursExpression, items: &mut Vec<Item>| {
         if let Some(text) = canon(e) {
             if seen.insert(text.clone()) {
-                items.push(Item { text, feats: features::of_expr(e), full: true });
+                items.push(Item { text, feats: features::of_expr(e), full: true, deep: true });
             }
         }
     };
@@ -223,7 +223,7 @@ pub fn family(cfg: &Cfg) -> Vec<Item> {
         }
         for s in al::corpus(&cfg.repo) {
             if let Ok(e) = opening_hours_syntax::parse(&s) {
-                items.push(Item { text: s, feats: features::of_expr(&e), full: true });
+                items.push(Item { text: s, feats: features::of_expr(&e), full: true, deep: true });
             }
         }
     }
@@ -281,7 +281,7 @@ pub fn replay(cfg: &Cfg, case: &Value) -> Vec<Violation> {
     let mut acc = Acc::new();
     let Some(text) = case.get("expr").and_then(|v| v.as_str()) else { return vec![] };
     let c = ctx::by_name(&cfg.repo, case.get("ctx").and_then(|v| v.as_str()).unwrap_or("empty"));
-    let it = Item { text: text.to_string(), feats: features::of_str(text), full: true };
+    let it = Item { text: text.to_string(), feats: features::of_str(text), full: true, deep: true };
     check_item(&it, &c, u64::MAX, &mut acc);
     acc.groups.into_values().flat_map(|g| g.examples).collect()
 }
